@@ -248,7 +248,7 @@ def middleWildcard (p : Path) : Bool :=
 /-- resolve `p` from the root following symlinks chroot-style; returns (links traversed, final location or none when the
 resolution does not end). `final = some []` means the root. A link may legitimately be crossed several times with different
 remainders (`c/c` with `c -> /`); the resolution is cyclic exactly when a (link, remainder) state recurs, and unbounded
-growth of the remainder (`l -> l/x`) runs out of fuel: both give `none`. -/
+growth of the remainder (`l -> l/x`) is given up after 255 crossings (or runs out of fuel): both give `none`. -/
 def resolveLoop (l : List Ent) : Nat → List (Path × List Path) → List Path → List Path → List Path → List Path × Option (List Path)
   | 0, _, seen, _, _ => (seen, none)
   | _, _, seen, cur, [] => (seen, some cur)
@@ -261,7 +261,9 @@ def resolveLoop (l : List Ent) : Nat → List (Path × List Path) → List Path 
       | some e =>
         match e.link with
         | some ln =>
-          if st.contains (joinSep next, rest) then (seen, none)
+          -- (more than 255 link crossings: given up, as the kernel (40) and continuity's RootPath (255) do; a remainder that
+          -- grows with every crossing - `l -> l/x` - otherwise makes the states ever longer)
+          if st.contains (joinSep next, rest) || decide (255 ≤ st.length) then (seen, none)
           else
             let tcs := comps ln
             let seen' := if seen.contains (joinSep next) then seen else joinSep next :: seen
